@@ -664,6 +664,98 @@ def notifier_correspondence(ctx):
             break
 
 
+# ---- K: Subscription model (generated setter event lists) <-> who is really registered with whose notifier -------------
+def subscription_correspondence(ctx):
+    """for every subscribing setter of the generated table: random assignment histories over a pool of three provider objects
+    (including re-assignment of the installed one); afterwards the owner must be registered with exactly the providers the
+    model says, once each (read from the providers' notifier lists)"""
+    from cherab.core import Plasma, Beam
+    from cherab.core.laser import Laser
+    from cherab.core.model import SingleRayAttenuator, Bremsstrahlung, BeamCXLine
+    from cherab.core.model.laser import UniformEnergyDensity
+    from cherab.core.atomic import Line, carbon
+    rng = ctx.rng
+    line = Line(carbon, 5, (8, 7))
+
+    from cherab.core.beam import BeamModel, BeamAttenuator
+
+    class _ProbeModel(BeamModel):                 # Beam.notifier is not visible from Python: observe by behaviour
+        hits = 0
+
+        def _change(self):
+            type(self).hits += 1
+
+    class _ProbeAttenuator(BeamAttenuator):
+        hits = 0
+
+        def _change(self):
+            type(self).hits += 1
+
+    def _registered(pv, owner):
+        """how many times `owner` is registered with provider `pv`'s notifier"""
+        nt = getattr(pv, 'notifier', None)
+        if nt is not None:
+            return sum(1 for r in nt._callbacks_refs if isinstance(r, tuple) and r[0]() is owner)
+        type(owner).hits = 0
+        pv.energy = pv.energy * 1.5 + 1.0         # every Beam parameter setter notifies
+        return 1 if type(owner).hits > 0 else 0
+
+    def _beam_with_plasma():
+        b = Beam()
+        b.plasma = Plasma()            # the attenuator setter configures the attenuator: it needs plasma and atomic data
+        from harness.props import c01_scene as S_
+        b.atomic_data = S_.MockData('A')
+        return b
+    spec = {
+        'Beam.attenuator.set': (_beam_with_plasma, lambda: SingleRayAttenuator(), 'attenuator'),
+        'BeamAttenuator.beam.set': (lambda: _ProbeAttenuator(), lambda: Beam(), 'beam'),
+        'BeamAttenuator.plasma.set': (lambda: SingleRayAttenuator(), lambda: Plasma(), 'plasma'),
+        'BeamModel.beam.set': (lambda: _ProbeModel(), lambda: Beam(), 'beam'),
+        'BeamModel.plasma.set': (lambda: BeamCXLine(line), lambda: Plasma(), 'plasma'),
+        'Laser.laser_profile.set': (lambda: Laser(), lambda: UniformEnergyDensity(), 'laser_profile'),
+        'Laser.plasma.set': (lambda: Laser(), lambda: Plasma(), 'plasma'),
+        'PlasmaModel.plasma.set': (lambda: Bremsstrahlung(), lambda: Plasma(), 'plasma'),
+    }
+    table = ctx.extra.get('setter_events', {}).get('setters', [])
+    for name in table:
+        if name not in spec:
+            ctx.broke('correspondence', 'C01 subscription ' + name, dict(detail='subscribing setter found in the sources that the correspondence does not know how to drive'))
+    lines, cases = [], []
+    for name in sorted(spec):
+        if name not in table:
+            ctx.broke('correspondence', 'C01 subscription ' + name, dict(detail='setter no longer subscribes in the sources (not in the generated table)'))
+            continue
+        mk_owner, mk_prov, attr = spec[name]
+        hists = [[0], [0, 0], [0, 1], [0, 1, 0], [0, 0, 1, 1, 0]] + [[rng.randrange(3) for _ in range(rng.randint(1, 7))] for _ in range(ctx.n(6, 60))]
+        for h in hists:
+            owner = mk_owner()
+            provs = [mk_prov() for _ in range(3)]
+            try:
+                for j in h:
+                    setattr(owner, attr, provs[j])
+                got = []
+                for j, pv in enumerate(provs):
+                    got += [str(j + 1)] * _registered(pv, owner)
+            except Exception as e:  # noqa
+                ctx.broke('correspondence', 'C01 subscription ' + name, dict(history=h, detail='%s: %s' % (exc_kind(e), e)))
+                continue
+            lines.append('subs %s %s' % (name, ' '.join(str(j + 1) for j in h)))
+            cases.append((name, h, sorted(got)))
+    outs = ctx.driver(lines)
+    for (name, h, got), out in zip(cases, outs):
+        ctx.traces += 1
+        ctx.count('subscription-check')
+        want = sorted(out.split())
+        if want != got:
+            ctx.disagreements += 1
+            ctx.broke('correspondence', 'C01 subscription ' + name, dict(setter=name, history=h, model=want, implementation=got))
+            # property-level oracle (no model): registered with exactly the installed object, once
+            if got != [str(h[-1] + 1)]:
+                ctx.fail('C01:subscription:%s' % name,
+                         'after the assignment history %r through %s the owner is registered with providers %r, installed is %r' % (h, name, got, h[-1] + 1),
+                         dict(kind='subscription', setter=name, history=h))
+
+
 def _detuple(x):
     if isinstance(x, list):
         return tuple(_detuple(y) for y in x)
@@ -683,16 +775,24 @@ def run(ctx):
     ctx.assumptions += ['single-threaded rendering; concurrent render engines are outside the model']
     from harness.translators import notify_edges
     notify_edges.generate(ctx)
-    ctx.lean_check(['Cherab.Props.C01', 'Cherab.Props.C01Notifier', 'Cherab.Props.C01Table'], 'Cherab/Audit/C01.lean')
+    from harness.translators import setter_events
+    setter_events.generate(ctx)
+    ctx.lean_check(['Cherab.Props.C01', 'Cherab.Props.C01Notifier', 'Cherab.Props.C01Table', 'Cherab.Props.C01Subscription'], 'Cherab/Audit/C01.lean')
     M = mutators(S)
     refill_correspondence(ctx, S, M)
     notifier_correspondence(ctx)
+    subscription_correspondence(ctx)
     search(ctx, S, M)
 
 
 def replay(ctx, path):
     from harness.props import c01_scene as S
     r = json.load(open(path))
+    if r['replay'].get('kind') == 'subscription':
+        from harness.translators import setter_events
+        setter_events.generate(ctx)
+        subscription_correspondence(ctx)          # re-runs the fixed histories of every setter (the recorded one is among them or shorter)
+        return ctx.finish()
     M = mutators(S)
     h = [tuple(_detuple(op)) for op in r['replay']['history']]
     base = BARE if r['replay'].get('base') == 'BARE' else BASE
